@@ -6,7 +6,7 @@ test, plus a complete syntactic index of the writers of `RawMachine::state`.
 """
 from .. import absint, step, shapes, mirutil
 from .. import domain as D
-from ..domain import Agg, En, Ref, TOP, BOT, Rng
+from ..domain import Opaque, Agg, En, Ref, TOP, BOT, Rng
 from ..facts import AnchorMissing
 
 LEVEL = "proof"
@@ -244,6 +244,32 @@ def run(ctx):
            "(so the only causes of a halt are the commit checks and the opcode bytes 0x00/0x01)",
            p.need_body(step.EDGE).loc(), "%d words analysed one by one; words that may halt: %s"
            % (nk, [hex(a) for a in badw[:8]]))
+
+    # ---- an error stop of the commit stage survives the rest of the same clock edge ---------
+    # (commit and IR load run in one edge on the fetch words: a PC above the limit committed at the
+    #  edge that also loads STOP must not end as a regular stop, from which the continue key would
+    #  resume a Running machine with an invalid PC)
+    nsurv = 0
+    for a in sorted(g2.prog):
+        if not g2.is_load(a):
+            continue
+        for label, lbr, want in (("stop-byte", 1, {"ErrorStopped"}), ("zero-byte", 0, {"ErrorStopped"}),
+                                 ("other-byte", frozenset(range(2, 256)), {"ErrorStopped"})):
+            ov = step.machine_overrides(p, a, "Running", False, Opaque("IR"), lbr,
+                                        extra={"pending_register_write": En({1: (En({regidx["R3"]: ()}),)}),
+                                               "alu_output.output": D.norm_rng(2, 255),
+                                               "programsize": En({ps_variants["Size"]: (D.norm_rng(0, 1),)}),
+                                               "stacksize": En({ss_variants["_0"]: ()}),
+                                               "register.content.5": 0})
+            st_, ma_, _ = step.run_edge(p, I, ov)
+            fin = set(state_names(p, step.field(p, I, st_, ma_, "state")) or ["?"])
+            nsurv += 1
+            chk.ob("commit-error-survives-edge/%#05x/%s" % (a, label), fin == want,
+                   "an error stop raised by the register commit of a clock edge is the state at the end of that edge, "
+                   "whatever opcode byte the same edge loads", "control word %#05x, raw/mod.rs update_instruction_from_bus" % a,
+                   "PC above the limit committed, loaded byte %s: final state %s" % (label, sorted(fin)),
+                   "A4 on RawMachine::trigger_clock_edge with commit and IR load in one edge")
+    chk.floor("commit+load edges checked", nsurv, 45)
 
     # ---- NotSet never reaches the raw machine -------------------------------
     SETSS = RM + "::set_stacksize"
